@@ -32,26 +32,63 @@ STRENGTHENED = {
     "C19-1": "C19: directed histories (channels sharing columns in disjoint regions, deletion through the view holding the channel), invariant after every directed step, biased generator",
     "C19-2": "recordings/clamps addressing belongs to C08, which catches it; C19's tables are unaffected by this change",
     "C20-1": "C20: exceptions of a builder on legal populations are failures (the harness crashed before)",
+    # round 3
+    "C01-3": "-", "C08-3": "-", "C11-3": "-", "C13-3": "-", "C14-3": "-", "C15-3": "-", "C16-3": "-", "C20-3": "-",
+    "C03-3": "caught as a broken obligation; a concrete input only through C04's new ladders v_sing ± 10^-k (C03's predicate is relative to the implementation's own rates)",
+    "C04-3": "C04: ladders v_sing ± 10^-k (k = 1..8) towards every removable singularity with a cancellation-aware tolerance",
+    "C02-3": "C02: charge balance with capacitance / resistivity / radius supplied by data_set; C10: axial_conductances compared, routes must simulate the same",
+    "C05-3": "C05: losses that read recorded membrane / synaptic currents",
+    "C06-3": "C06: execution history (same nested layout used again with other inputs and parameters)",
+    "C07-3": "C07: split / continuation with params= (trainable initial states) and param_state=",
+    "C09-3": "C11: Spec predicate and battery for synapse-type views on restricted parent views (effect lies in C11's statement)",
+    "C10-3": "C10: write_trainables after an edit of an unselected row since the last to_jax",
+    "C12-3": "C12: constituents with the same mechanisms inserted in a different order, at every level",
+    "C17-3": "C17: ParamTransform lists with duplicate parameter names",
+    "C18-3": "C18: copies simulated with every backend; padded cells (direct and by set_ncomp)",
+    "C19-3": "C19: set_ncomp histories with groups (C13 caught it as it stood)",
 }
 
 
-def main():
-    res = json.load(open(os.path.join(ROOT, "seeded", "RESULTS.json"))) if os.path.exists(os.path.join(ROOT, "seeded", "RESULTS.json")) else dict(seeded={})
-    print("| id | file(s) | change | needs | caught by (quick tier, seeds 0 and 1) | what the miss taught |")
-    print("|---|---|---|---|---|---|")
+def last_runs(d):
+    """latest run per (property, seed) from seeded/<id>/runs.json"""
+    rj = os.path.join(d, "runs.json")
+    out = {}
+    if os.path.exists(rj):
+        for batch in json.load(open(rj)):
+            for r in batch.get("runs", []):
+                out[(r["prop"], r["seed"])] = r
+    return out
+
+
+def table():
+    rows = ["| id | file(s) | change | needs | caught by (quick tier, seeds 0 and 1; latest run) | what the miss taught |", "|---|---|---|---|---|---|"]
     for d in sorted(glob.glob(os.path.join(ROOT, "seeded", "C*-*"))):
         sid = os.path.basename(d)
         meta = json.load(open(os.path.join(d, "meta.json")))
         files = sorted(set(re.findall(r"^\+\+\+ b/(\S+)", open(os.path.join(d, "patch.diff")).read(), re.M)))
-        rows = res.get("seeded", {}).get(sid, [])
         caught = {}
-        for r in rows:
-            m = re.match(r"(C\d+) seed=(\d+) exit=(\d+) (CAUGHT|MISSED)(.*)", r)
-            if m:
-                caught.setdefault(m.group(1), []).append(("yes" if m.group(4) == "CAUGHT" else "NO") + (" (no-failing-input-found)" if "no-failing-input-found" in r else ""))
-        cs = "; ".join(f"{p}: {', '.join(v)}" for p, v in caught.items()) or "(see runs.json)"
+        for (prop, seed), r in sorted(last_runs(d).items()):
+            v = r.get("violation") or []
+            caught.setdefault(prop, []).append(("yes" if r["exit"] == 1 and v else "NO" if r["exit"] == 0 else f"exit {r['exit']}")
+                                               + (" (no-failing-input-found)" if v and "no-failing-input-found" in v[0] else ""))
+        cs = "; ".join(f"{p}: {', '.join(v)}" for p, v in caught.items()) or "(not run)"
         short = lambda t, n: (t[:n] + "…") if len(t) > n else t
-        print(f"| {sid} | {', '.join(f.replace('jaxley/', '') for f in files)} | {short(meta.get('summary', ''), 230)} | {short(meta.get('needs', ''), 200)} | {cs} | {STRENGTHENED.get(sid, '')} |")
+        clean = lambda t: t.replace("|", "/").replace("\n", " ")
+        rows.append(f"| {sid} | {', '.join(f.replace('jaxley/', '') for f in files)} | {clean(short(meta.get('summary', ''), 230))} | {clean(short(meta.get('needs', ''), 200))} | {cs} | {STRENGTHENED.get(sid, '')} |")
+    return "\n".join(rows)
+
+
+def main():
+    import sys
+    t = table()
+    if "--write" in sys.argv:
+        p = os.path.join(ROOT, "DESIGN.md")
+        s = open(p).read()
+        a, b = s.index("<!-- SEEDTABLE-BEGIN -->"), s.index("<!-- SEEDTABLE-END -->")
+        s = s[:a] + "<!-- SEEDTABLE-BEGIN -->\n" + t + "\n" + s[b:]
+        open(p, "w").write(s)
+    else:
+        print(t)
 
 
 if __name__ == "__main__":
